@@ -204,3 +204,34 @@ def collect_deep(terms):
             if k not in seen and not _has_binder(b):
                 seen.add(k); acc[k] = b; work.append(b)
     return acc
+
+
+def instance_axioms(terms, cands, depth=2, limit=400):
+    """bound facts of max / min / argmax / all / any nodes instantiated at candidate index terms (Skolem constants and ground index
+    arguments of the query), recursively for the closed reduction nodes that appear in the instantiated bodies.
+    Every fact is an instance of the node's defining property, hence sound."""
+    facts = []; seen = set(); work = []
+    acc = {}
+    for t in terms: collect(t, acc)
+    work = [(a, depth) for a in acc.values()]
+    while work and len(facts) < limit:
+        a, d = work.pop()
+        key = a.sexpr()
+        if key in seen: continue
+        seen.add(key)
+        e = entry_of(a)
+        if e is None or e.kind not in ("max", "min", "argmax", "all", "any"): continue
+        for t in cands:
+            kind, n, bt = instantiate(a, t)
+            rng = z3.And(t >= 0, t < n)
+            if kind == "max": facts.append(z3.Implies(rng, a >= bt))
+            elif kind == "min": facts.append(z3.Implies(rng, a <= bt))
+            elif kind == "all": facts.append(z3.Implies(z3.And(rng, a), bt))
+            elif kind == "any": facts.append(z3.Implies(z3.And(rng, bt), a))
+            elif kind == "argmax":
+                _, _, ba = instantiate(a, a); facts.append(z3.Implies(rng, ba >= bt))
+            if d > 0:
+                inner = {}; collect(bt, inner)
+                for b in inner.values():
+                    if not _has_binder(b): work.append((b, d - 1))
+    return facts
